@@ -194,7 +194,17 @@ func c06backpressure(c *vt.Ctx, L, w, rel int, batchWaiters bool, ctrl *sched.Co
 		// goroutine waiting for a mutex never counts as quiescent
 		for k := 0; k < 1; k++ {
 			rig.H.Release(fmt.Sprintf("run%d", rel%L))
-			rig.Settle() // the reply of that call is now held inside Send
+			// the reply of that call is now held inside Send, with the server's mutex; a
+			// request that has been given the free slot must not need that mutex to start
+			if stuck := peer.SettleOrStuck(ctrl); stuck != nil {
+				c.Failf("%s: with the finished call's reply still being written, %d goroutine(s) of the server wait for its mutex for good (no request can start although a slot is free); first:\n%.1500s", what, len(stuck), stuck[0])
+				close(hold)
+				rig.H.ReleaseAll()
+				rig.Settle()
+				rig.Finish()
+				return
+			}
+			rig.Collect()
 			wantStarted := min(k+1, w)
 			if got := started(); got != wantStarted {
 				c.Failf("%s: after %d of the running calls returned (their replies still being written), %d waiting calls have started, want %d: a slot is free as soon as its handler has returned",
